@@ -61,7 +61,7 @@ def ITEMS(n: int, t: str, w: str, xs: "objseq", k: int) -> bytes:
 
 def ENTRY1(n: int, mk: str, mv: str, key: object, val: object) -> bytes:
     """one map entry: a length-delimited record holding key (field 1) and value (field 2)"""
-    return RECS(n, "map", RECS(1, mk, ENCP(mk, "", key), False, "") + RECS(2, mv, ENCP(mv, "", val), False, ""), False, "")
+    return RECS(n, "map", RECS(1, mk, ENCP(mk, "", key), False, "") + RECS(2, mv, ENCP(mv, "", val), False, ""), True, "")
 
 
 def ENTRIES(n: int, mk: str, mv: str, ks: "objseq", vs: "objseq", k: int) -> bytes:
